@@ -9,6 +9,7 @@ import (
 	"sync"
 	"sync/atomic"
 	"time"
+	"verif/memkv"
 
 	"github.com/anishathalye/porcupine"
 	"github.com/xuperchain/xupercore/bcs/ledger/xledger/state/utxo"
@@ -36,6 +37,7 @@ type request struct {
 }
 
 type roundReport struct {
+	JitterHits int64
 	Pattern    string   `json:"pattern"`
 	Round      int      `json:"round"`
 	Events     string   `json:"events"` // interleaving signature: order of call/return events
@@ -57,7 +59,15 @@ func runRounds(seed int64, pattern string, n int) roundsResult {
 	var out roundsResult
 	for i := 0; i < n; i++ {
 		rng := rand.New(rand.NewSource(seed*7907 + int64(i)))
+		// every second round runs with storage-latency jitter (yields / microsecond sleeps at the
+		// storage operations, the points where a real node waits for the disk)
+		if i%2 == 1 {
+			memkv.SetJitter(seed*31+int64(i), 5)
+		} else {
+			memkv.SetJitter(0, 0)
+		}
 		rep := oneRound(rng, pattern, i)
+		rep.JitterHits = memkv.JitterHits()
 		out.Rounds = append(out.Rounds, rep)
 		if rep.Hung {
 			break // the process is wedged: stop here, the parent sees Hung
